@@ -96,6 +96,10 @@ type c18Case struct {
 	Ctor int `json:"ctor,omitempty"`
 	// Before: the instances are configured with a BeforeFunc (counted)
 	Before bool `json:"before,omitempty"`
+	// Raw: the middleware instances get the *RateLimiterMemoryStore itself as their Store (every optional
+	// capability the middleware may look for is visible), not the recording wrapper; what a store decided
+	// for a request is then read off the response (every request path has exactly one limiter)
+	Raw bool `json:"raw,omitempty"`
 	// Many > 0: "many identifiers" case (oracle only, one store): 8 victims use up their burst at T0; then
 	// Many other identifiers arrive one after the other (1 us apart, starting one second later), each with one
 	// call; at checkpoints (table sizes 1000, 1024, 4096, 10000, 16384, 32768, 65535..65537, 100000, 131072, ...)
@@ -257,9 +261,16 @@ func c18Drive(c *c18Case, evs []c18Ev) (obs []c18Obs, panicked string) {
 	// mk: a new RateLimiter instance on store k (every registration gets its own instance)
 	mk := func(k int) echo.MiddlewareFunc {
 		if c.Ctor == 1 {
+			if c.Raw {
+				return middleware.RateLimiter(recs[k].inner)
+			}
 			return middleware.RateLimiter(recs[k])
 		}
-		cfg := middleware.RateLimiterConfig{Store: recs[k]}
+		var theStore middleware.RateLimiterStore = recs[k]
+		if c.Raw {
+			theStore = recs[k].inner
+		}
+		cfg := middleware.RateLimiterConfig{Store: theStore}
 		if c.Ctor == 0 {
 			cfg.Skipper = func(ctx echo.Context) bool { return ctx.Request().Header.Get("X-Skip") != "" }
 		}
@@ -334,6 +345,10 @@ func c18Drive(c *c18Case, evs []c18Ev) (obs []c18Obs, panicked string) {
 			w := httptest.NewRecorder()
 			e.ServeHTTP(w, req)
 			o = c18Obs{ran: ran, status: w.Code}
+			if c.Raw && ev.Kind == c18HTTP {
+				// one limiter on the path: it admitted iff the handler ran
+				d.calls = append(d.calls, c18Call{store: c.chain(ev)[0], ev: i, id: ev.ID, t: ev.T, ok: ran})
+			}
 		}
 		o.calls, o.before, o.bad = d.calls, d.before, d.bad
 		obs = append(obs, o)
@@ -957,6 +972,9 @@ func c18Oracles(c *c18Case, obs []c18Obs) (v c18Verdict, tags []string, nontrivi
 	if c.Before {
 		tagset["before-func"] = true
 	}
+	if c.Raw {
+		tagset["store-handed-to-the-middleware-unwrapped"] = true
+	}
 	if c.DefaultID {
 		tagset["default-extractor"] = true
 	}
@@ -999,6 +1017,9 @@ func (c *c18Case) valid() bool {
 			return false
 		}
 		if ev.Kind == c18HTTPSkip && c.Ctor != 0 {
+			return false
+		}
+		if c.Raw && ev.Kind != c18Direct && ev.Kind != c18DirectAt && len(c.chain(ev)) != 1 {
 			return false
 		}
 		if ev.Kind == c18HTTPErr && c.DefaultID {
@@ -1424,6 +1445,7 @@ func c18Variants(r *rand.Rand, c *c18Case) {
 	if c.Ctor != 1 && r.Intn(4) == 0 {
 		c.Before = true
 	}
+	c.Raw = r.Intn(3) == 0
 	if r.Intn(12) == 0 {
 		// NewRateLimiterMemoryStore(rate): burst = int(rate), ExpiresIn = 3 min (ExpiresIn*rate >= burst holds)
 		c.Burst, c.ExpiresIn = 0, 0
@@ -1488,9 +1510,13 @@ func c18AssignRoutes(r *rand.Rand, c *c18Case) {
 		ev := &c.Evs[i]
 		direct := ev.Kind == c18Direct
 		if c.S2 == nil {
-			if !direct && r.Intn(2) == 0 {
+			if !direct && r.Intn(2) == 0 && !c.Raw {
 				ev.R = 4
 			}
+			continue
+		}
+		if c.Raw && !direct {
+			ev.R = []int{0, 2}[r.Intn(2)]
 			continue
 		}
 		switch {
@@ -1544,7 +1570,7 @@ func c18Probe2(r *rand.Rand, c *c18Case, unit int64, rounds int) {
 			route := ry
 			if r.Intn(2) == 0 {
 				kind = c18HTTP
-				if y == 1 && r.Intn(2) == 0 {
+				if y == 1 && r.Intn(2) == 0 && !c.Raw {
 					route = 1
 				}
 			}
@@ -1991,6 +2017,11 @@ func c18Shrink(ci any) []any {
 		d.Ctor = 0
 		out = append(out, &d)
 	}
+	if c.Raw {
+		d := *c
+		d.Raw = false
+		out = append(out, &d)
+	}
 	{
 		// everything over the plain route, without the second store
 		changed := c.S2 != nil
@@ -2065,7 +2096,7 @@ func c18Shrink(ci any) []any {
 func init() {
 	register(&Prop{
 		ID:             "C18",
-		Rule:           "3/5 exact stream (rate k/2^j, instants multiples of 2^-9 s: float64 arithmetic of x/time/rate is exact, decisions compared with the Lean model), 2/5 arbitrary stream (rate p/q, ns instants, incl. the F11 arrival pattern floor(i/rate): oracles only), plus high-rate exact cases where the 1 ns truncation slack shows, plus a skew stream (concurrent Store.Allow goroutines on a clock monotone in start order, some held by channels between their clock reading and AllowN while 1-3 later calls complete: out-of-order readings at the limiter, finding F19; compared with the model in AllowN order and checked against the allowance of C18_skew_bucket), plus a frozen-clock stress stream (4-15 fresh identifiers x 8-31 goroutines released together: at most / exactly burst admissions per identifier on any schedule; oracle only); a third of the middleware cases use custom Deny/ErrorHandlers (writing 429/403 and returning nil, or returning their own HTTPError); 1-4 identifiers (a fifth of the cases: 65-200 byte identifiers sharing their first 64+ bytes, differing only in the last byte, or one a prefix of the other), bursts at one instant, arrivals at/next to the refill interval, idle gaps at ExpiresIn-1,+0,+1 unit and beyond (cleanup), returns after being forgotten; ExpiresIn tight (=burst/rate), wider, default, or (exact stream only, tie only) violating ExpiresIn*rate>=burst; requests direct to Store.Allow or through the middleware (extractor error, skipper, default RealIP extractor); the middleware instances are built with RateLimiterWithConfig (with Skipper, or a hand-built config with nil Skipper; a quarter with a counted BeforeFunc) or with the convenience constructor RateLimiter(store); stores with NewRateLimiterMemoryStoreWithConfig or NewRateLimiterMemoryStore(rate); a quarter of the cases have a SECOND store with other parameters in the same process and send the requests over routes behind one limiter, a coarse limiter on the group + a strict one on the route, two limiters on one route in the other order, or two instances sharing one store (a sixth of the single-store cases use that route too), with direct calls to either store, plus a two-store expiry probe (an identifier is swept at one store, then first-time identifiers arrive at the other store with more than its burst); the Allow calls of every store are recorded: window / refusal / independence per store on its own trace, isolation = the decisions of every store re-run on a store of its own, middleware = the chain is consulted in order, each instance once, nothing behind the first refusal; one case per run checks that a config without Store is refused; plus a many-identifiers stream: 3 (thorough: 12) ordinary histories with 300-2500 first-time identifiers between the exhaustion and the return of early identifiers (compared with the model), and 2 (thorough: 8) big cases with 5k-69k (thorough: up to 270k) live identifiers in one store, 8 victims exhausted at T0 and re-probed when the table holds exactly 1000, 1024, 4096, 10000, 16384, 32768, 65535..65537, 100000, 131072, ... identifiers (oracle only: window / refusal on the victims, every first-time identifier admitted); non-trivial = some identifier is admitted again after a refusal, or returns after a gap longer than ExpiresIn; distinct = distinct model op lines / cases",
+		Rule:           "3/5 exact stream (rate k/2^j, instants multiples of 2^-9 s: float64 arithmetic of x/time/rate is exact, decisions compared with the Lean model), 2/5 arbitrary stream (rate p/q, ns instants, incl. the F11 arrival pattern floor(i/rate): oracles only), plus high-rate exact cases where the 1 ns truncation slack shows, plus a skew stream (concurrent Store.Allow goroutines on a clock monotone in start order, some held by channels between their clock reading and AllowN while 1-3 later calls complete: out-of-order readings at the limiter, finding F19; compared with the model in AllowN order and checked against the allowance of C18_skew_bucket), plus a frozen-clock stress stream (4-15 fresh identifiers x 8-31 goroutines released together: at most / exactly burst admissions per identifier on any schedule; oracle only); a third of the middleware cases use custom Deny/ErrorHandlers (writing 429/403 and returning nil, or returning their own HTTPError); 1-4 identifiers (a fifth of the cases: 65-200 byte identifiers sharing their first 64+ bytes, differing only in the last byte, or one a prefix of the other), bursts at one instant, arrivals at/next to the refill interval, idle gaps at ExpiresIn-1,+0,+1 unit and beyond (cleanup), returns after being forgotten; ExpiresIn tight (=burst/rate), wider, default, or (exact stream only, tie only) violating ExpiresIn*rate>=burst; requests direct to Store.Allow or through the middleware (extractor error, skipper, default RealIP extractor); the middleware instances are built with RateLimiterWithConfig (with Skipper, or a hand-built config with nil Skipper; a quarter with a counted BeforeFunc) or with the convenience constructor RateLimiter(store); stores with NewRateLimiterMemoryStoreWithConfig or NewRateLimiterMemoryStore(rate); a quarter of the cases have a SECOND store with other parameters in the same process and send the requests over routes behind one limiter, a coarse limiter on the group + a strict one on the route, two limiters on one route in the other order, or two instances sharing one store (a sixth of the single-store cases use that route too), with direct calls to either store, plus a two-store expiry probe (an identifier is swept at one store, then first-time identifiers arrive at the other store with more than its burst); the Allow calls of every store are recorded: window / refusal / independence per store on its own trace, isolation = the decisions of every store re-run on a store of its own, middleware = the chain is consulted in order, each instance once, nothing behind the first refusal; one case per run checks that a config without Store is refused; in a third of the cases the middleware instances get the *RateLimiterMemoryStore itself as Store (raw: optional capabilities the middleware type-asserts for are visible; one limiter per request path, the decision is read off the response) instead of the recording wrapper; plus a many-identifiers stream: 3 (thorough: 12) ordinary histories with 300-2500 first-time identifiers between the exhaustion and the return of early identifiers (compared with the model), and 2 (thorough: 8) big cases with 5k-69k (thorough: up to 270k) live identifiers in one store, 8 victims exhausted at T0 and re-probed when the table holds exactly 1000, 1024, 4096, 10000, 16384, 32768, 65535..65537, 100000, 131072, ... identifiers (oracle only: window / refusal on the victims, every first-time identifier admitted); non-trivial = some identifier is admitted again after a refusal, or returns after a gap longer than ExpiresIn; distinct = distinct model op lines / cases",
 		New:            func() any { return &c18Case{} },
 		Gen:            c18Gen,
 		Run:            c18Run,
